@@ -154,7 +154,7 @@ pub fn check_with(ctx_kf: &crate::refimpl::treebuilder::Switches, tc: &TreeCase,
     Ok(())
 }
 
-const CONTENT_TOKENS: &[&str] = &["charset", "ChArSeT", "x", " ", "\t", "=", "\"", "'", ";", "é"];
+const CONTENT_TOKENS: &[&str] = &["charset", "ChArSeT", "x", " ", "\t", "\x0C", "\n", "\r", "=", "\"", "'", ";", "é"];
 
 fn content_string(mut k: u64, n: usize) -> String {
     let mut s = String::new();
@@ -175,7 +175,8 @@ const META_FORMS: &[&str] = &[
     "<meta http-equiv=refresh content=charset=x>", "<meta content=charset=x>", "<meta http-equiv=content-type>",
     "<meta http-equiv=content-type content='charset'>", "<meta http-equiv=content-type content='charset=\"x'>",
     "<meta http-equiv=content-type content='charsetcharset=z'>", "<meta charset=a http-equiv=content-type content=charset=b>",
-    "<meta name=x content=y>", "<meta http-equiv=\"content-type \" content=charset=q>", "<meta/>", "<META CHARSET=K/>",
+    "<meta name=x content=y>", "<meta http-equiv=content-type content='charset\x0C=\x0Cff'>", "<meta http-equiv=content-type content='charset=a\x0Cb'>",
+    "<meta http-equiv=content-type content='charset\n=\r\nlf;x'>", "<meta http-equiv=\"content-type \" content=charset=q>", "<meta/>", "<META CHARSET=K/>",
     "<link charset=l>", "<base charset=b>", "<basefont charset=f>", "<bgsound charset=s>", "<meta charset=1 charset=2>",
     "<meta http-equiv=content-type content='text/html;charset=\u{e9}'>", "<svg><meta charset=in-svg>", "<math><mi><meta charset=in-mi>",
 ];
@@ -208,14 +209,14 @@ pub fn decode(s: &mut Src) -> TreeCase {
 
 pub fn run(ctx: &Ctx) -> Report {
     let mut rep = Report::new(
-        "Observed: the sequence of TokenizerResult::EncodingIndicator(label) values returned by feed() while parsing into ModelDom, and whether the meta element was already connected to the document (or template contents) when feed() returned. Expected: for each HTML meta element the reference tree builder inserted (inputs on which html5ever's tree equals the reference's; others are C02's and counted as excluded), in order: its charset value if present, else - when http-equiv matches content-type ASCII-case-insensitively and content is present - the result of a char-based transcription of the WHATWG 'extract a character encoding from a meta element' algorithm, if it returns one; nothing otherwise. Resumption: the final tree must equal the tree of the twin document in which charset/http-equiv are renamed (same lengths, same chunk cuts) so that no indicator fires. Search: (1) every content string of <= L grammar tokens over {charset, ChArSeT, x, SPACE, TAB, =, \", ', ;, é} in <meta http-equiv=content-type content=...>; (2) 26 meta/link/base forms placed after 25 context prefixes (head, noscript-in-head, after head, body, table/foster-parented, caption/cell, template, after body, frameset modes, foreign content, raw-text elements, comments) x grammar-generated surroundings x fragment contexts x random chunkings. Non-trivial: >=1 meta inserted or 'charset' in the input; distinct by case hash.",
+        "Observed: the sequence of TokenizerResult::EncodingIndicator(label) values returned by feed() while parsing into ModelDom, and whether the meta element was already connected to the document (or template contents) when feed() returned. Expected: for each HTML meta element the reference tree builder inserted (inputs on which html5ever's tree equals the reference's; others are C02's and counted as excluded), in order: its charset value if present, else - when http-equiv matches content-type ASCII-case-insensitively and content is present - the result of a char-based transcription of the WHATWG 'extract a character encoding from a meta element' algorithm, if it returns one; nothing otherwise. Resumption: the final tree must equal the tree of the twin document in which charset/http-equiv are renamed (same lengths, same chunk cuts) so that no indicator fires. Search: (1) every content string of <= L grammar tokens over {charset, ChArSeT, x, SPACE, TAB, FF, LF, CR, =, \", ', ;, é} in <meta http-equiv=content-type content=...>; (2) 26 meta/link/base forms placed after 25 context prefixes (head, noscript-in-head, after head, body, table/foster-parented, caption/cell, template, after body, frameset modes, foreign content, raw-text elements, comments) x grammar-generated surroundings x fragment contexts x random chunkings. Non-trivial: >=1 meta inserted or 'charset' in the input; distinct by case hash.",
     );
     rep.assume("labels are reported unvalidated (html5ever documents that); an empty charset value is reported as the empty label");
     report_known(ctx, &mut rep, &|v| replay(&ctx.strict_clone(), v));
     run_regressions(ctx, &mut rep, &|v| replay(&ctx.strict_clone(), v));
     let kf = c02::active_switches(ctx);
     // (1)
-    let l = ctx.tier.pick(5usize, 7usize);
+    let l = ctx.tier.pick(5usize, 6usize);
     let nt = CONTENT_TOKENS.len() as u64;
     let total: u64 = (0..=l).map(|d| nt.pow(d as u32)).sum();
     let out = run_exhaustive(total, |idx, st| {
